@@ -516,9 +516,12 @@ class ConsHist(Engine):
             if k == "int" and depth > 0:
                 n = e[1]
                 return ro.choice([["lit", "int", n], ["lit", "float", f"{n}.0"], ["lit", "str", str(n)],
-                                  ["lit", "frac", f"{n}/1"], ["int", n]])
+                                  ["lit", "frac", f"{n}/1"], ["int", n],
+                                  # an integral value written as a decimal, a ratio or with an exponent is still Int n
+                                  ["lit", "str", f"{n}.0"], ["lit", "str", f"{2 * n}/2"], ["lit", "str", f"{n}e0"]])
             if k == "int":
-                return ro.choice([["lit", "int", e[1]], ["int", e[1]], ["lit", "float", f"{e[1]}.0"], ["lit", "str", str(e[1])]])
+                return ro.choice([["lit", "int", e[1]], ["int", e[1]], ["lit", "float", f"{e[1]}.0"], ["lit", "str", str(e[1])],
+                                  ["lit", "str", f"{e[1]}.0"], ["lit", "str", f"{3 * e[1]}/3"]])
             if k == "real":
                 fr = Fraction(e[1])
                 opts = [["real", e[1]], ["lit", "frac", e[1]], ["lit", "str", e[1]]]
